@@ -238,7 +238,7 @@ Proof.
   destruct k; simpl; unfold plain_items; rewrite ?R, map_length; reflexivity.
 Qed.
 
-(* ---------- every expression, with_free_parameters anywhere (needs the proposed fix_free_right) ---------- *)
+(* ---------- every expression, with_free_parameters anywhere (needs the repair 9d1b558 = fix_free_right) ---------- *)
 Lemma add_err_l (c : cfg) (x : aval) : add c VErr x = VErr.
 Proof. destruct x; reflexivity. Qed.
 Lemma add_err_r (c : cfg) (x : aval) : add c x VErr = VErr.
@@ -271,3 +271,7 @@ Proof.
       * destruct (spec_shape_free a Na) as [H|[its H]]; rewrite H; [apply add_err_l|apply add_free_l].
   - change (eval c (Free e)) with (with_free (eval c e)). rewrite IH. reflexivity.
 Qed.
+
+(* /repo as it stands *)
+Theorem flatten_all_now (e : expr) : eval cfg_now e = spec_struct e.
+Proof. exact (flatten_all cfg_now e eq_refl eq_refl eq_refl). Qed.
